@@ -1,6 +1,49 @@
 ---------------------------- MODULE MCStepSched ----------------------------
-(* Exhaustive configurations for StepSched (one cfg file per property family).        *)
-EXTENDS StepSched
+(* Exhaustive and simulation configurations for StepSched (one cfg file per property).
+   Adds two output-only history variables that no guard reads:
+     mv   the gate-controller move that corresponds to the last action
+          ("L", "W:2", "T:2", "S", "P:2:ok", "PH", "stop", "kill", "timeout")
+     hist the sequence of moves so far - a behaviour of the model in the vocabulary the
+          harness replays into the real scheduler (vh sched -scenarios ..., driveMoves).
+   Both are hidden from the state fingerprint by VIEW MCView.                            *)
+EXTENDS StepSched, Json
+
+VARIABLES mv, hist
+mcvars == <<vars, mv, hist>>
+MCView == vars
+
+Mv(m) == mv' = m /\ hist' = Append(hist, m)
+
+MCInit == Init /\ mv = "init" /\ hist = <<>>
+MCNext ==
+  \/ (LStart \/ LTop \/ LVisit \/ LLaunch \/ LWgWait \/ LHandler \/ LHCreated) /\ Mv("L")
+  \/ LHExit /\ Mv("PH")
+  \/ \E s \in Steps :
+       \/ (WBegin(s) \/ WExec(s) \/ WStart(s) \/ WPost(s) \/ WRetryWake(s)) /\ Mv("W:" \o ToString(s))
+       \/ WTail(s) /\ Mv("T:" \o ToString(s))
+       \/ WExit(s) /\ Mv("P:" \o ToString(s) \o (IF res'[s] = "ok" THEN ":ok" ELSE ":fail"))
+  \/ SCall /\ Mv("stop")
+  \/ SKillCall /\ Mv("kill")
+  \/ (SFlagged \/ SNode) /\ Mv("S")
+  \/ TFire /\ Mv("timeout")
+MCSpec == MCInit /\ [][MCNext]_mcvars
+MCFairSpec == MCSpec /\ WF_vars(Loop) /\ WF_vars(Stop) /\ WF_vars(TFire)
+                 /\ \A s \in Steps : WF_vars(WorkerCtl(s)) /\ WF_vars(MustExit(s) /\ WExit(s))
+
+\* a finished behaviour: Schedule returned, no goroutine left, no Signal call in flight
+Quiet == Returned /\ (\A s \in Steps : tails[s] = 0 /\ wpc[s] = "idle") /\ spc \in {"idle", "between", "done"}
+EmitBehaviour == Quiet => PrintT("BEHAVIOUR " \o ToJson([cfg |-> cfg, moves |-> hist]))
+
+\* a model counter-example is only a lead: it is printed as a replayable scenario (cfg + moves) and the
+\* harness forces it onto the real scheduler; the verdict comes from the monitors on the recorded trace
+Lead(ok) == ok \/ (PrintT("LEAD " \o ToJson([cfg |-> cfg, moves |-> hist])) /\ FALSE)
+Lead_C03_NoGhost       == Lead(C03_NoGhost)
+Lead_C04_HandlerLog    == Lead(C04_HandlerLog)
+Lead_C04_Outcome       == Lead(C04_Outcome)
+Lead_C04_NoRunningLeft == Lead(C04_NoRunningLeft)
+Lead_C05_NoLateStart   == Lead(C05_NoLateStart)
+Lead_C05_KillReaches   == Lead(C05_KillReaches)
+Lead_C05_TermReaches   == Lead(C05_TermReaches)
 
 F(x) == [s \in Steps |-> x]
 Base == [deps |-> F({}), contF |-> F(FALSE), contS |-> F(FALSE), rlimit |-> F(0),
@@ -10,51 +53,98 @@ Base == [deps |-> F({}), contF |-> F(FALSE), contS |-> F(FALSE), rlimit |-> F(0)
 
 Acyclic(d) == \E r \in [Steps -> 1..N] : \A s \in Steps : \A p \in d[s] : r[p] < r[s]
 AllDeps    == {d \in [Steps -> SUBSET Steps] : Acyclic(d)}
-\* one representative family of 3-step shapes for the quick tier
 Chain   == [s \in Steps |-> IF s = 1 THEN {} ELSE {s - 1}]
 Join    == [s \in Steps |-> IF s = N THEN 1..(N-1) ELSE {}]
 Fork    == [s \in Steps |-> IF s = 1 THEN {} ELSE {1}]
 RevJoin == [s \in Steps |-> IF s = 1 THEN 2..N ELSE {}]
+RevChain == [s \in Steps |-> IF s = N THEN {} ELSE {s + 1}]
 QuickDeps == {F({}), Chain, Join, Fork, RevJoin}
+Only(i, a, b) == [s \in Steps |-> IF s = i THEN a ELSE b]
 
-\* ---- family "order": C01 C02 C03 C15 without stop (all shapes x continueOn x preconditions x retry x maxActive)
+\* ---- family "order": C01 C02 C03 C15 without stop
 OrderQuick ==
   {[Base EXCEPT !.deps = d, !.contF = cf, !.contS = cs, !.pcond = pc, !.rlimit = rl, !.maxActive = m, !.doneChan = dc]
-     : d \in QuickDeps, cf \in {F(FALSE), [s \in Steps |-> s = 1], F(TRUE)}, cs \in {F(FALSE), F(TRUE)},
-       pc \in {F("none"), [s \in Steps |-> IF s = 1 THEN "unmet" ELSE "none"], [s \in Steps |-> IF s = 2 THEN "unmet" ELSE "met"]},
-       rl \in {F(0), [s \in Steps |-> IF s = 2 THEN 1 ELSE 0], [s \in Steps |-> IF s = 1 THEN 2 ELSE 0]},
-       m \in {0, 1, 2}, dc \in BOOLEAN}
+     : d \in QuickDeps, cf \in {F(FALSE), Only(1, TRUE, FALSE)}, cs \in {F(FALSE), F(TRUE)},
+       pc \in {F("none"), Only(1, "unmet", "none")},
+       rl \in {F(0), Only(2, 1, 0)},
+       m \in {0, 1}, dc \in BOOLEAN}
 OrderFull ==
   {[Base EXCEPT !.deps = d, !.contF = cf, !.contS = cs, !.pcond = pc, !.rlimit = rl, !.maxActive = m, !.doneChan = dc]
-     : d \in AllDeps, cf \in [Steps -> BOOLEAN], cs \in {F(FALSE), F(TRUE), [s \in Steps |-> s = 1]},
-       pc \in {F("none"), [s \in Steps |-> IF s = 1 THEN "unmet" ELSE "none"], [s \in Steps |-> IF s = 2 THEN "unmet" ELSE "met"]},
-       rl \in {F(0), [s \in Steps |-> IF s = 2 THEN 1 ELSE 0], [s \in Steps |-> IF s = 1 THEN 2 ELSE 0]},
+     : d \in AllDeps, cf \in [Steps -> BOOLEAN], cs \in {F(FALSE), F(TRUE), Only(1, TRUE, FALSE)},
+       pc \in {F("none"), Only(1, "unmet", "none"), Only(2, "unmet", "met")},
+       rl \in {F(0), Only(2, 1, 0), Only(1, 2, 0)},
        m \in {0, 1, 2}, dc \in BOOLEAN}
+\* C15: width x limit (k = 1 .. width+1) with retries
+LimitQuick ==
+  {[Base EXCEPT !.deps = d, !.rlimit = rl, !.maxActive = m, !.doneChan = dc]
+     : d \in {F({}), Fork, Join}, rl \in {F(0), Only(2, 1, 0)}, m \in 0..(N + 1), dc \in BOOLEAN}
+LimitFull ==
+  {[Base EXCEPT !.deps = d, !.rlimit = rl, !.maxActive = m, !.contF = cf, !.doneChan = dc]
+     : d \in AllDeps, rl \in {F(0), Only(2, 1, 0), F(1), Only(1, 2, 0)}, m \in 0..(N + 1),
+       cf \in {F(FALSE), F(TRUE)}, dc \in BOOLEAN}
+\* C03: retry limit 0..2 on every position (k below / at / above the limit is the free choice of WExit)
+RetryQuick ==
+  {[Base EXCEPT !.deps = d, !.rlimit = rl, !.maxActive = m, !.doneChan = dc, !.dry = dr]
+     : d \in {F({}), Chain, Join}, rl \in {F(0), Only(1, 2, 0), Only(2, 1, 0), F(1)}, m \in {0, 1, 2},
+       dc \in BOOLEAN, dr \in BOOLEAN}
+RetryFull ==
+  {[Base EXCEPT !.deps = d, !.rlimit = rl, !.maxActive = m, !.doneChan = dc, !.dry = dr, !.contF = cf]
+     : d \in AllDeps, rl \in {F(0), Only(1, 2, 0), Only(2, 1, 0), Only(3, 2, 0), F(1)}, m \in {0, 1, 2},
+       dc \in BOOLEAN, dr \in BOOLEAN, cf \in {F(FALSE), F(TRUE)}}
 
 \* ---- family "outcome": C04 handlers with and without stop
 AllH == {"success", "failure", "cancel", "exit"}
 OutcomeQuick ==
   {[Base EXCEPT !.deps = d, !.contF = cf, !.handlers = h, !.hfail = hf, !.stop = st, !.rlimit = rl]
-     : d \in {F({}), Chain, Join}, cf \in {F(FALSE), [s \in Steps |-> s = 1]},
+     : d \in {F({}), Chain}, cf \in {F(FALSE), Only(1, TRUE, FALSE)},
        h \in {AllH, {"exit"}, {"failure", "cancel"}, {}}, hf \in {{}, {"failure"}}, st \in BOOLEAN,
-       rl \in {F(0), [s \in Steps |-> IF s = 1 THEN 1 ELSE 0]}}
+       rl \in {F(0)}}
+OutcomeNoStopQuick ==
+  {[Base EXCEPT !.deps = d, !.contF = cf, !.handlers = h, !.hfail = hf, !.doneChan = dc]
+     : d \in {F({}), Chain, Join}, cf \in {F(FALSE), Only(1, TRUE, FALSE)},
+       h \in {AllH, {"exit"}, {"failure", "cancel"}, {"success"}, {"success", "exit"}, {}}, hf \in {{}, {"failure", "exit"}},
+       dc \in BOOLEAN}
+OutcomeNoStop ==
+  {[Base EXCEPT !.deps = d, !.contF = cf, !.handlers = h, !.hfail = hf, !.rlimit = rl, !.pcond = pc, !.doneChan = dc]
+     : d \in QuickDeps, cf \in {F(FALSE), Only(1, TRUE, FALSE), F(TRUE)},
+       h \in SUBSET AllH, hf \in {{}, {"failure"}, {"exit"}, {"success", "cancel"}},
+       rl \in {F(0), Only(1, 1, 0)},
+       pc \in {F("none"), Only(2, "unmet", "none")}, dc \in BOOLEAN}
 OutcomeFull ==
   {[Base EXCEPT !.deps = d, !.contF = cf, !.handlers = h, !.hfail = hf, !.stop = st, !.rlimit = rl, !.pcond = pc]
-     : d \in QuickDeps, cf \in {F(FALSE), [s \in Steps |-> s = 1], F(TRUE)},
+     : d \in QuickDeps, cf \in {F(FALSE), Only(1, TRUE, FALSE), F(TRUE)},
        h \in SUBSET AllH, hf \in {{}, {"failure"}, {"exit"}, {"success", "cancel"}}, st \in BOOLEAN,
-       rl \in {F(0), [s \in Steps |-> IF s = 1 THEN 1 ELSE 0]},
-       pc \in {F("none"), [s \in Steps |-> IF s = 2 THEN "unmet" ELSE "none"]}}
+       rl \in {F(0), Only(1, 1, 0)},
+       pc \in {F("none"), Only(2, "unmet", "none")}}
 
 \* ---- family "stop": C05 (stop at any point, obeying / ignoring processes, kill escalation, repeat, timeout)
 StopQuick ==
   {[Base EXCEPT !.deps = d, !.stop = TRUE, !.kill = k, !.obeys = ob, !.rlimit = rl, !.maxActive = m,
                 !.handlers = {"cancel", "exit"}, !.repeat = rp]
-     : d \in {F({}), Chain, Join}, k \in BOOLEAN, ob \in {F(TRUE), F(FALSE)},
-       rl \in {F(0), [s \in Steps |-> IF s = 1 THEN 1 ELSE 0]}, m \in {0, 1},
-       rp \in {F(FALSE), [s \in Steps |-> s = 1]}}
+     : d \in {F({}), Chain}, k \in BOOLEAN, ob \in {F(TRUE), F(FALSE)},
+       rl \in {F(0), Only(1, 1, 0)}, m \in {0, 1},
+       rp \in {F(FALSE), Only(N, TRUE, FALSE)}}
+\* thorough (N = 3): sequential shapes with everything, parallel shapes without retry
+StopFull ==
+  {[Base EXCEPT !.deps = d, !.stop = TRUE, !.kill = k, !.obeys = ob, !.rlimit = rl, !.maxActive = m,
+                !.handlers = h, !.repeat = rp, !.doneChan = dc]
+     : d \in {Chain, RevChain}, k \in BOOLEAN, ob \in {F(TRUE), F(FALSE), Only(1, FALSE, TRUE)},
+       rl \in {F(0), Only(1, 1, 0)}, m \in {0, 1}, h \in {{"cancel", "exit"}, {}},
+       rp \in {F(FALSE), Only(N, TRUE, FALSE)}, dc \in BOOLEAN}
+  \cup
+  {[Base EXCEPT !.deps = d, !.stop = TRUE, !.kill = k, !.obeys = ob, !.maxActive = m, !.handlers = {"cancel"}]
+     : d \in {Fork, Join}, k \in BOOLEAN, ob \in {F(TRUE), F(FALSE)}, m \in {0, 1}}
 TimeoutQuick ==
   {[Base EXCEPT !.deps = d, !.timeout = TRUE, !.handlers = {"failure", "cancel", "exit"}, !.rlimit = rl]
-     : d \in {F({}), Chain, Join}, rl \in {F(0), [s \in Steps |-> IF s = 1 THEN 1 ELSE 0]}}
+     : d \in {F({}), Chain, Join}, rl \in {F(0), Only(1, 1, 0)}}
+StopTimeoutQuick == StopQuick \cup TimeoutQuick
+\* small configurations for the liveness clauses (the liveness graph is the expensive part)
+LiveStop ==
+  {[Base EXCEPT !.deps = d, !.stop = TRUE, !.kill = TRUE, !.obeys = ob, !.handlers = {"cancel"}, !.rlimit = rl]
+     : d \in {Chain}, ob \in {F(TRUE), F(FALSE)}, rl \in {F(0), Only(1, 1, 0)}}
+LiveLimit ==
+  {[Base EXCEPT !.deps = d, !.maxActive = m, !.rlimit = rl]
+     : d \in {F({}), Join}, m \in 1..N, rl \in {F(0), Only(1, 1, 0)}}
 
 ExecBound == \A s \in Steps : execs[s] <= 3
 =============================================================================
